@@ -21,6 +21,11 @@ FAMILIES = {
     "var1-noorder": dict(n_axes=1, layout="onaxis", n_glyphs=16, glyph_order="none"),
     "var2-partialorder": dict(n_axes=2, layout="onaxis", n_glyphs=12, glyph_order="partial", notdef="middle"),
     "var1-vertical": dict(n_axes=1, layout="intermediate", n_glyphs=8, vertical=True),
+    # vertical metrics + feature-file tables that override header fields: the table the feature compiler hands over is merged with the measured one
+    "vertical-fea-tables": dict(n_axes=1, layout="onaxis", n_glyphs=8, vertical=True, composites=0.3,
+                                features="languagesystem DFLT dflt;\ntable vhea {\n  VertTypoAscender 520;\n  VertTypoDescender -480;\n  VertTypoLineGap 1000;\n} vhea;\n"
+                                         "table hhea {\n  CaretOffset -50;\n  Ascender 800;\n  Descender -200;\n  LineGap 190;\n} hhea;\n"),
+    "vertical-fea-tables-static": dict(n_axes=0, n_glyphs=9, vertical=True, features="table vhea {\n  VertTypoAscender 500;\n  VertTypoDescender -500;\n  VertTypoLineGap 1000;\n} vhea;\n"),
     "var2-nested-xform": dict(n_axes=2, layout="onaxis", n_glyphs=12, composites=0.5, nested=True, transforms="scale"),
     "var1-nonexport": dict(n_axes=1, layout="intermediate", n_glyphs=12, composites=0.5, nested=True, non_export=3, sparse_glyphs=0.4),
     "var1-mixedglyphs": dict(n_axes=1, layout="onaxis", n_glyphs=14, composites=0.7, mixed_glyphs=0.8),  # several mixed glyphs in every draw
@@ -84,11 +89,11 @@ BY_PROPERTY = {
     "C04": ["var2-ties", "var3-diagonal", "var1-onaxis", "var3-brace-g", "var1-intermediate", "var2-corners", "var2-mixed-sparse", "var3-mixed", "var1-vertical", "var1-vertical", "var2-partialorder"],
     "C06": ["c06-partial-notdef-mid", "c06-none-notdef-last", "c06-full-notdef-first", "c06-full-nonotdef", "c06-prodnames", "c06-mixed", "static-noorder", "var1-nonexport", "var2-partialorder"],
     "C08": ["c08-1axis", "c08-2axis", "c08-3axis-int", "c08-1axis"],
-    "C17": ["c17-special-static", "c17-special-var", "var2-nested-xform", "c17-special-static", "var1-vertical", "c06-partial-notdef-mid", "kern-static"],
+    "C17": ["vertical-fea-tables", "c17-special-static", "c17-special-var", "var2-nested-xform", "c17-special-static", "var1-vertical", "c06-partial-notdef-mid", "kern-static"],
     "C12": ["c12-nested-scale", "c12-sparse-leaf", "c12-nested-rotate", "c12-nonexport-sparse", "c12-mixed-static", "c12-overflow", "var2-nested-xform", "c12-sparse-leaf2"],
     # every kind of font the other checks produce, for the walker: layout tables from kerning / anchors / feature code /
     # rules, names from feature code, nested and transformed composites, sparse and diagonal masters, cubic outlines
-    "C05": ["var2-nested-xform", "names-var1-collide", "kern-many", "marks-var2", "rules-var2", "var2-mixed-sparse", "names-var1", "var3-diagonal",
+    "C05": ["vertical-fea-tables", "vertical-fea-tables-static", "var2-nested-xform", "names-var1-collide", "kern-many", "marks-var2", "rules-var2", "var2-mixed-sparse", "names-var1", "var3-diagonal",
             "c12-nonexport-sparse", "marks-propagate", "var1-cubic", "static-noorder", "kern-divergent", "names-static", "c17-special-var",
             "marks-intermediate", "rules-var1", "var1-mixedglyphs", "c06-partial-notdef-mid", "names-twin", "var1-vertical", "c12-overflow",
             "kern-static", "marks-static", "var2-diagonal", "rules-var3", "c17-special-static", "var1-nonexport"],
